@@ -43,6 +43,18 @@ OBLIGATIONS = [
        native_custom=replay_rereg),
 ]
 
+REC = 'C13/reclaimer.c'
+CKR = ('--bounds-check', '--signed-overflow-check', '--div-by-zero-check')
+for e, uw, nua, cov, fns, d in (
+    ('h_producer_wake', 3, False, 2, ('_defer_rcu', 'wake_up_defer'), '_defer_rcu: head published -> full barrier -> futex test; FUTEX_WAKE iff the reclaimer sleeps'),
+    ('h_wait_defer', 4, True, 3, ('wait_defer', 'rcu_defer_num_callbacks'), 'wait_defer under spurious wake-ups / EINTR / EAGAIN: decrement -> full barrier -> stop flag and EVERY registered queue examined; sleeps only on -1 with stop clear and all queues empty; queued calls => futex reset, no sleep'),
+    ('h_wait_defer_stop', 4, True, 1, ('wait_defer',), 'wait_defer with the stop flag set: the thread exits (never returns), futex reset to 0 first'),
+    ('h_stop', 3, False, 1, ('stop_defer_thread', 'wake_up_defer'), 'stop_defer_thread: stop flag -> full barrier -> wake-up iff asleep; join; flag cleared'),
+    ('h_thr_defer', 3, True, 1, ('thr_defer',), 'thr_defer (2 iterations of its endless loop): each wake-up is followed by one rcu_defer_barrier() - queued calls run without any further API call'),
+):
+    OBLIGATIONS.append(Ob(name='C13.O7.' + e[2:], harness=REC, entry=e, mode='legacy', defines=('_LGPL_SOURCE',) + (('E_STOP',) if e == 'h_wait_defer_stop' else ()) + (('E_THR',) if e == 'h_thr_defer' else ()), rules=('defer',), replace=('urcu_memb_defer_barrier', 'urcu_memb_defer_barrier_thread'),
+        unwind=uw, cbmc_flags=(('--no-unwinding-assertions',) if nua else ()), min_covers=cov, checks=CKR, timeout=300, functions=fns, desc=d,
+        tier='B' if e == 'h_thr_defer' else 'P', bound='2 iterations of the reclaimer loop' if e == 'h_thr_defer' else ''))
 META = {
     'level': 'proof', 'bounded_apart': True,
     'trusted_base': ['CBMC 6.11', 'sequential meaning of uatomic_load/store and cmm_* (atomics_seq.h)',
